@@ -205,26 +205,38 @@ fn inputs_path() -> std::path::PathBuf {
     std::path::PathBuf::from(base)
 }
 
-fn load_inputs(path: &str) -> Vec<(String, bool)> {
-    let text = std::fs::read_to_string(path).expect("inputs file");
-    text.lines()
-        .map(|l| {
-            let v: Value = serde_json::from_str(l).expect("input line");
+/// Only the lines `start..end` are decoded (a child is restarted after every hang or crash, and
+/// decoding millions of lines each time is what made a loaded machine look like a dead child).
+fn load_inputs(path: &str, start: usize, end: usize) -> Vec<(String, bool)> {
+    let f = std::io::BufReader::new(std::fs::File::open(path).expect("inputs file"));
+    f.lines()
+        .map_while(Result::ok)
+        .enumerate()
+        .skip(start)
+        .take(end.saturating_sub(start))
+        .map(|(_, l)| {
+            let v: Value = serde_json::from_str(&l).expect("input line");
             (v[0].as_str().unwrap().to_string(), v[1].as_bool().unwrap())
         })
         .collect()
 }
 
 pub fn child(path: &str, start: usize, end: usize) {
-    let inputs = load_inputs(path);
+    let inputs = load_inputs(path, start, end);
     let stdout = std::io::stdout();
-    for i in start..end.min(inputs.len()) {
+    {
+        // ready: from here on silence means a hang, before it only a slow start
+        let mut o = stdout.lock();
+        writeln!(o, "R").unwrap();
+        o.flush().unwrap();
+    }
+    for i in start..(start + inputs.len()) {
         {
             let mut o = stdout.lock();
             writeln!(o, "B {i}").unwrap();
             o.flush().unwrap();
         }
-        let (text, repl) = &inputs[i];
+        let (text, repl) = &inputs[i - start];
         // CPU time of this thread, so that a loaded machine does not look like a slow parser
         let t0 = thread_cpu_micros();
         let res = std::panic::catch_unwind(|| check_one(text, *repl));
@@ -501,10 +513,14 @@ fn supervise(path: &str, start: usize, end: usize) -> Vec<(usize, Value)> {
     while next < end {
         let mut child = spawn_child(path, next, end);
         let mut current: Option<usize> = None;
+        let mut ready = false;
         loop {
-            match child.rx.recv_timeout(Duration::from_secs(20)) {
+            // until the child said "R" it is still starting (loading its inputs): allow 10 minutes
+            match child.rx.recv_timeout(Duration::from_secs(if ready { 20 } else { 600 })) {
                 Ok(line) => {
-                    if let Some(i) = line.strip_prefix("B ") {
+                    if line == "R" {
+                        ready = true;
+                    } else if let Some(i) = line.strip_prefix("B ") {
                         current = i.trim().parse().ok();
                     } else if let Some(rest) = line.strip_prefix("E ") {
                         let (i, js) = rest.split_once(' ').unwrap_or((rest, "{}"));
